@@ -249,6 +249,9 @@ fn hook_post(e: &shim::Event, result: u64, ok: bool) {
             if e.op == shim::Op::Free {
                 g.allocs.remove(&e.addr);
             }
+            if e.op == shim::Op::Store && e.file.ends_with("exfiltrator/mod.rs") {
+                crate::iterconc::LATE_STORES.fetch_add(1, std::sync::atomic::Ordering::SeqCst);
+            }
             if e.op == shim::Op::Cas && crate::iterconc::LEARN.load(std::sync::atomic::Ordering::SeqCst) {
                 drop(g);
                 crate::iterconc::learn(e.addr);
